@@ -1,7 +1,7 @@
 """C14 — deterministic, history-independent results."""
 import re
 
-MODULES = ["contracts.c14_state", "contracts.c01_converter", "contracts.c04_process"]
+MODULES = ["contracts.c14_state", "contracts.c01_converter", "contracts.c04_process", "contracts.c02_modelproto"]
 
 
 def INCLUDE(name):
